@@ -54,6 +54,18 @@ func (k Key) Sign(msg []byte) []byte {
 	return ms.Marshal()
 }
 
+// Shape: p for a plain key, m(<shape>,...) for a multisignature key
+func (k Key) Shape() string {
+	if k.Sub == nil {
+		return "p"
+	}
+	var p []string
+	for _, c := range k.Sub {
+		p = append(p, c.Shape())
+	}
+	return "m(" + strings.Join(p, ",") + ")"
+}
+
 func multiKey(sub ...Key) Key {
 	var pubs []crypto.PublicKey
 	for _, c := range sub {
